@@ -953,8 +953,12 @@ class _MatrixMeta(type):
 SYMPY = _NS("sympy", Matrix=SMat, cos=cos, sin=sin, exp=exp, sqrt=sqrt, tan=tan, I=Poly.const(1j),
             pi=Poly.var("pi"), eye=eye, zeros=zeros, simplify=simplify, kronecker_product=kronecker_product,
             Symbol=symbol, Expr=Poly, N=lambda x: x, expand=lambda x: x, re=lambda x: x, im=lambda x: x)
+def _np_array(x, dtype=None):
+    return x if isinstance(x, SMat) else SMat(x)
+
+
 NUMPY = _NS("numpy", sqrt=sqrt, pi=Poly.var("pi"), cos=cos, sin=sin, exp=exp, kron=kron, eye=eye,
-            zeros=zeros)
+            zeros=zeros, array=_np_array, ndarray=SMat)
 
 
 # ---------------------------------------------------------------------------------------------
